@@ -126,4 +126,26 @@ def runTask (s : Sys) (i : Nat) : Nat → Sys
   | 0 => s
   | n + 1 => if enabled s i then runTask (step s i) i n else s
 
+/-! ### the connection's accept loop (`handle_connection`)
+
+A connection is the list of streams its peer has opened, in order; stream `k` of the connection is registration task
+`streams[k]`. The loop takes the next stream when it is free to: always, if every stream is handed to a task of its
+own (`streamsHandledInOwnTasks`, regenerated from the source); only when the previous stream's `handle_stream` has
+returned, if it is awaited inline. -/
+
+structure Conn where
+  streams : List Nat      -- indices into `Sys.tasks`, in the order the peer opened them
+  accepted : Nat          -- how many of them the loop has taken so far
+
+/-- may the loop take the connection's next stream now? -/
+def canAccept (ownTasks : Bool) (s : Sys) (c : Conn) : Bool :=
+  decide (c.accepted < c.streams.length) &&
+    (ownTasks ||
+      match c.accepted with
+      | 0 => true
+      | k + 1 =>
+        match c.streams[k]? with
+        | some i => (s.tasks[i]?).map (·.pc) = some .done
+        | none => true)
+
 end Selium.Server
